@@ -39,6 +39,17 @@ func GoBin() string {
 	if v := os.Getenv("VGO"); v != "" {
 		return v
 	}
+	// run.sh exports VGO (env.sh); when the binary is started by hand fall back to the same search
+	for _, c := range []string{"/root/go/pkg/mod/golang.org/toolchain@v0.0.1-go1.24.0.linux-amd64/bin/go"} {
+		if st, err := os.Stat(c); err == nil && !st.IsDir() {
+			return c
+		}
+	}
+	for _, n := range []string{"go1.26", "go1.26.8"} {
+		if p, err := exec.LookPath(n); err == nil {
+			return p
+		}
+	}
 	return "go"
 }
 
